@@ -34,6 +34,31 @@ impl Grp {
     }
 }
 
+/// Operator forms whose *left* operand is a reference (`&v + w`, `&v + &w`): they need
+/// `&T: Add<..>`, which generic code cannot name, so each concrete leaf element type hands out
+/// function pointers instantiated at the concrete vector type.
+pub struct RefOps<V> {
+    pub ref_add_val: fn(&V, V) -> V,
+    pub ref_add_ref: fn(&V, &V) -> V,
+}
+macro_rules! ref_ops_decl {
+    ($($m:ident $Vec:ident),+) => {
+        $(fn $m() -> Option<RefOps<vek::vec::repr_c::$Vec<Self>>> { None })+
+    };
+}
+macro_rules! ref_ops_impl {
+    ($($m:ident $Vec:ident),+) => {
+        $(fn $m() -> Option<RefOps<vek::vec::repr_c::$Vec<Self>>> {
+            Some(RefOps { ref_add_val: |a, b| a + b, ref_add_ref: |a, b| a + b })
+        })+
+    };
+}
+macro_rules! ref_ops_all {
+    ($mac:ident) => {
+        $mac!(ro_vec2 Vec2, ro_vec3 Vec3, ro_vec4 Vec4, ro_vec8 Vec8, ro_vec16 Vec16, ro_vec32 Vec32, ro_vec64 Vec64, ro_extent2 Extent2, ro_extent3 Extent3, ro_rgb Rgb, ro_rgba Rgba, ro_uv Uv, ro_uvw Uvw);
+    };
+}
+
 /// What the element type of a container under test must provide to the harness.
 pub trait Item:
     Sized
@@ -64,6 +89,7 @@ pub trait Item:
     /// For row/column vectors of a matrix: the consuming iterator over the line itself.
     type Inner: Iterator<Item = Self::Leaf> + DoubleEndedIterator + ExactSizeIterator + Debug + Hash + PartialEq + 'static;
     fn into_inner(self) -> Result<Self::Inner, Self>;
+    ref_ops_all!(ref_ops_decl);
 }
 
 /// A single tracked element (as opposed to a row/column vector of them).
@@ -158,6 +184,7 @@ impl Item for Tok {
     fn into_inner(self) -> Result<NoInner<Tok>, Self> {
         Err(self)
     }
+    ref_ops_all!(ref_ops_impl);
 }
 
 /// A second element shape (swarm dimension "element layout"): large (256 bytes), 16-byte aligned, with padding
@@ -227,6 +254,18 @@ impl<'a> std::ops::Add<&'a Wide> for Wide {
         Wide::wrap(self.inner + &rhs.inner)
     }
 }
+impl<'a> std::ops::Add<Wide> for &'a Wide {
+    type Output = Wide;
+    fn add(self, rhs: Wide) -> Wide {
+        Wide::wrap(&self.inner + rhs.inner)
+    }
+}
+impl<'a, 'b> std::ops::Add<&'b Wide> for &'a Wide {
+    type Output = Wide;
+    fn add(self, rhs: &'b Wide) -> Wide {
+        Wide::wrap(&self.inner + &rhs.inner)
+    }
+}
 impl std::ops::Mul<Wide> for Wide {
     type Output = Wide;
     fn mul(self, rhs: Wide) -> Wide {
@@ -281,6 +320,7 @@ impl Item for Wide {
     fn into_inner(self) -> Result<NoInner<Wide>, Self> {
         Err(self)
     }
+    ref_ops_all!(ref_ops_impl);
 }
 
 impl Item for tok::Plain {
@@ -298,6 +338,7 @@ impl Item for tok::Plain {
     fn into_inner(self) -> Result<NoInner<tok::Plain>, Self> {
         Err(self)
     }
+    ref_ops_all!(ref_ops_impl);
 }
 
 macro_rules! item_vec {
@@ -433,6 +474,8 @@ pub trait Kind<X: Item>: 'static {
     fn v_product_of<I: Iterator<Item = Self::V>>(i: I) -> Self::V;
     fn v_elem_sum(a: Self::V) -> X;
     fn v_elem_product(a: Self::V) -> X;
+    /// `&v + w`, `&v + &w` (only for the concrete leaf element types)
+    fn ref_ops() -> Option<RefOps<Self::V>>;
     /// kind / size conversions available for this vector type with no bound on the element type
     /// (`From<other kind>`, `From<(smaller, scalar)>`, truncating `From<larger>`), each composed so
     /// that it ends in this type again
@@ -452,7 +495,7 @@ macro_rules! as_x {
 }
 
 macro_rules! kind {
-    ($K:ident, $name:expr, $Vec:ident, $n:expr, [$($f:tt)+], [$($i:tt)+], [$($nm:ident)+]) => {
+    ($K:ident, $name:expr, $Vec:ident, $ro:ident, $n:expr, [$($f:tt)+], [$($i:tt)+], [$($nm:ident)+]) => {
         pub struct $K;
         impl<X: Item> Kind<X> for $K {
             const N: usize = $n;
@@ -557,6 +600,7 @@ macro_rules! kind {
             fn v_product_of<I: Iterator<Item = Self::V>>(i: I) -> Self::V { i.product() }
             fn v_elem_sum(a: Self::V) -> X { a.sum() }
             fn v_elem_product(a: Self::V) -> X { a.product() }
+            fn ref_ops() -> Option<RefOps<Self::V>> { X::$ro() }
             fn kc_specs() -> &'static [KcSpec] { crate::kindconv::$K::SPECS }
             fn v_kind_conv(v: Self::V, variant: usize, extras: Vec<X>) -> Self::V { crate::kindconv::$K::conv::<X>(v, variant, extras) }
             fn from_slice_u32(s: &[u32]) -> Vec<u32> {
@@ -573,25 +617,25 @@ macro_rules! kind {
     };
 }
 
-kind!(KVec2, "Vec2", Vec2, 2, [x y], [0 1], [a0 a1]);
-kind!(KVec3, "Vec3", Vec3, 3, [x y z], [0 1 2], [a0 a1 a2]);
-kind!(KVec4, "Vec4", Vec4, 4, [x y z w], [0 1 2 3], [a0 a1 a2 a3]);
-kind!(KExtent2, "Extent2", Extent2, 2, [w h], [0 1], [a0 a1]);
-kind!(KExtent3, "Extent3", Extent3, 3, [w h d], [0 1 2], [a0 a1 a2]);
-kind!(KRgb, "Rgb", Rgb, 3, [r g b], [0 1 2], [a0 a1 a2]);
-kind!(KRgba, "Rgba", Rgba, 4, [r g b a], [0 1 2 3], [a0 a1 a2 a3]);
-kind!(KUv, "Uv", Uv, 2, [u v], [0 1], [a0 a1]);
-kind!(KUvw, "Uvw", Uvw, 3, [u v w], [0 1 2], [a0 a1 a2]);
-kind!(KVec8, "Vec8", Vec8, 8, [0 1 2 3 4 5 6 7], [0 1 2 3 4 5 6 7], [a0 a1 a2 a3 a4 a5 a6 a7]);
-kind!(KVec16, "Vec16", Vec16, 16,
+kind!(KVec2, "Vec2", Vec2, ro_vec2, 2, [x y], [0 1], [a0 a1]);
+kind!(KVec3, "Vec3", Vec3, ro_vec3, 3, [x y z], [0 1 2], [a0 a1 a2]);
+kind!(KVec4, "Vec4", Vec4, ro_vec4, 4, [x y z w], [0 1 2 3], [a0 a1 a2 a3]);
+kind!(KExtent2, "Extent2", Extent2, ro_extent2, 2, [w h], [0 1], [a0 a1]);
+kind!(KExtent3, "Extent3", Extent3, ro_extent3, 3, [w h d], [0 1 2], [a0 a1 a2]);
+kind!(KRgb, "Rgb", Rgb, ro_rgb, 3, [r g b], [0 1 2], [a0 a1 a2]);
+kind!(KRgba, "Rgba", Rgba, ro_rgba, 4, [r g b a], [0 1 2 3], [a0 a1 a2 a3]);
+kind!(KUv, "Uv", Uv, ro_uv, 2, [u v], [0 1], [a0 a1]);
+kind!(KUvw, "Uvw", Uvw, ro_uvw, 3, [u v w], [0 1 2], [a0 a1 a2]);
+kind!(KVec8, "Vec8", Vec8, ro_vec8, 8, [0 1 2 3 4 5 6 7], [0 1 2 3 4 5 6 7], [a0 a1 a2 a3 a4 a5 a6 a7]);
+kind!(KVec16, "Vec16", Vec16, ro_vec16, 16,
     [0 1 2 3 4 5 6 7 8 9 10 11 12 13 14 15],
     [0 1 2 3 4 5 6 7 8 9 10 11 12 13 14 15],
     [a0 a1 a2 a3 a4 a5 a6 a7 a8 a9 a10 a11 a12 a13 a14 a15]);
-kind!(KVec32, "Vec32", Vec32, 32,
+kind!(KVec32, "Vec32", Vec32, ro_vec32, 32,
     [0 1 2 3 4 5 6 7 8 9 10 11 12 13 14 15 16 17 18 19 20 21 22 23 24 25 26 27 28 29 30 31],
     [0 1 2 3 4 5 6 7 8 9 10 11 12 13 14 15 16 17 18 19 20 21 22 23 24 25 26 27 28 29 30 31],
     [a0 a1 a2 a3 a4 a5 a6 a7 a8 a9 a10 a11 a12 a13 a14 a15 a16 a17 a18 a19 a20 a21 a22 a23 a24 a25 a26 a27 a28 a29 a30 a31]);
-kind!(KVec64, "Vec64", Vec64, 64,
+kind!(KVec64, "Vec64", Vec64, ro_vec64, 64,
     [0 1 2 3 4 5 6 7 8 9 10 11 12 13 14 15 16 17 18 19 20 21 22 23 24 25 26 27 28 29 30 31 32 33 34 35 36 37 38 39 40 41 42 43 44 45 46 47 48 49 50 51 52 53 54 55 56 57 58 59 60 61 62 63],
     [0 1 2 3 4 5 6 7 8 9 10 11 12 13 14 15 16 17 18 19 20 21 22 23 24 25 26 27 28 29 30 31 32 33 34 35 36 37 38 39 40 41 42 43 44 45 46 47 48 49 50 51 52 53 54 55 56 57 58 59 60 61 62 63],
     [a0 a1 a2 a3 a4 a5 a6 a7 a8 a9 a10 a11 a12 a13 a14 a15 a16 a17 a18 a19 a20 a21 a22 a23 a24 a25 a26 a27 a28 a29 a30 a31 a32 a33 a34 a35 a36 a37 a38 a39 a40 a41 a42 a43 a44 a45 a46 a47 a48 a49 a50 a51 a52 a53 a54 a55 a56 a57 a58 a59 a60 a61 a62 a63]);
